@@ -26,6 +26,7 @@ META = {
     "assumptions": ["floats as exact reals", "md-grid: 2x2 matrix + 2-cell fracture + interface (3 grids)"],
     "stubs": [],
     "outside": ["histories longer than the bound", "other md-grids"],
+    "operations": "create on subdomain subsets / interfaces, remove an md-variable or one sub-variable, create an existing name on further grids, rejected overlapping create",
 }
 
 DOFS = [{"cells": 1}, {"cells": 2}, {"cells": 1, "faces": 1}, {"nodes": 1}]
@@ -42,6 +43,11 @@ def _alphabet():
     for k in range(3):
         ops.append(("rm", k))       # remove the k-th live md-variable (if it exists)
     ops.append(("rm1", 0))          # remove only the first sub-variable of the first live md-variable
+    # the name of the first live md-variable again: on the subdomains it does not live on yet (allowed),
+    # and on a list that mixes fresh grids with grids it already lives on (must be rejected atomically)
+    ops.append(("extend", 0))
+    ops.append(("overlap", 0))      # fresh grids first, then a grid where the name exists
+    ops.append(("overlap", 1))      # a grid where the name exists first
     return ops
 
 
@@ -119,6 +125,27 @@ def _drive(hist, values_of, check, sample=None):
                 mdv = es.create_variables(name, dof_info=dict(info), interfaces=grids)
             check("created-on-requested-grids", [v.domain for v in mdv.sub_vars] == grids)
             live.append((name, [(v, v.domain, info) for v in mdv.sub_vars]))
+        elif op[0] in ("extend", "overlap"):
+            cand = [(nm, subs) for nm, subs in live if subs and isinstance(subs[0][1], pp.Grid)]
+            if cand:
+                name, subs = cand[0]
+                have = [g for _, g, _ in subs]
+                same_name = [g for nm, ss in live if nm == name for _, g, _ in ss]
+                fresh = [g for g in sds if not any(g is h for h in same_name)]
+                info = subs[0][2]
+                if op[0] == "extend":
+                    if fresh:
+                        mdv = es.create_variables(name, dof_info=dict(info), subdomains=fresh)
+                        check("created-on-requested-grids", [v.domain for v in mdv.sub_vars] == fresh)
+                        live.append((name, [(v, v.domain, info) for v in mdv.sub_vars]))
+                elif fresh:
+                    grids = (fresh + have[:1]) if op[1] == 0 else (have[:1] + fresh)
+                    try:
+                        es.create_variables(name, dof_info=dict(info), subdomains=grids)
+                        check("overlapping-create-is-rejected", False)
+                    except KeyError:
+                        check("overlapping-create-is-rejected", True)
+                    # the rejected request must leave the system exactly as it was (checked below)
         elif op[0] == "rm":
             if op[1] < len(live):
                 name, subs = live.pop(op[1])
@@ -167,7 +194,7 @@ def _drive(hist, values_of, check, sample=None):
         es.set_variable_values(vec, iterate_index=0)
         back = es.get_variable_values(iterate_index=0)
         check("write-read-all", ("eq", back, vec))
-        md_names = [name for name, _ in live]
+        md_names = list(dict.fromkeys(name for name, _ in live))     # a name extended to more grids is one key
         subsets = [[n] for n in md_names] + ([md_names[::-1]] if len(md_names) > 1 else [])
         if len(blocks) > 1:
             subsets.append([blocks[-1][0], blocks[0][0]])      # single variables, reversed order
